@@ -552,7 +552,7 @@ pub fn under_aligned_cases(first: usize) -> Vec<(String, Vec<(ItemPath, Module)>
         let wides: &[(&str, usize)] = if ptrw == 8 { &[("u128", 16), ("i128", 16)] } else { &[("u64", 8), ("i64", 8), ("f64", 8), ("u128", 16)] };
         let word = if ptrw == 8 { "u64" } else { "u32" };
         for (wide, wsz) in wides {
-            for inner_shape in 0..4usize {
+            for inner_shape in 0..6usize {
                 for inner_align in [None, Some(ptrw), Some(*wsz)] {
                     for outer_shape in 0..5usize {
                         for outer_align in [None, Some(*wsz)] {
@@ -567,7 +567,10 @@ pub fn under_aligned_cases(first: usize) -> Vec<(String, Vec<(ItemPath, Module)>
                                     defs.push(ItemDefinition::new((Visibility::Public, "W"), EnumDefinition::new(Type::ident(if *wide == "f64" { "u64" } else { wide }), [EnumStatement::field("A")], [Attribute::copyable()])));
                                     vec![crate::refmodel::field("e", Type::ident("W"), None, true), crate::refmodel::field("f", Type::ident("W"), Some(*wsz), true)]
                                 }
-                                _ => vec![crate::refmodel::field("arr", Type::ident(wide).array(2), None, true), crate::refmodel::field("_", Type::Unknown(*wsz), None, false)],
+                                3 => vec![crate::refmodel::field("arr", Type::ident(wide).array(2), None, true), crate::refmodel::field("_", Type::Unknown(*wsz), None, false)],
+                                // zero-sized, but as aligned as its declaration says / as its only field
+                                4 => vec![],
+                                _ => vec![crate::refmodel::field("none", Type::ident(wide).array(0), None, true)],
                             };
                             let mut inner = TypeDefinition::new(inner_fields);
                             if let Some(a) = inner_align {
